@@ -17,7 +17,7 @@ RULE = ("a scenario is one world of 2 or 3 phased VCFs with up to 16 chromosomes
         "(TLC-enumerated by Gen_C11: all diploid pairs over 1-3 sites with phase sets {unphased,1,2}, with homozygous/missing "
         "records, 4-5 sites with one vs two phase sets, single blocks of 6-7 sites, diploid triples, triploid pairs over 2-3 sites, "
         "tetraploid pairs over 2 sites, diploid pairs over 2 sites with alleles 0-2; plus seeded random tuples with up to 12 sites, 4 phase sets, interleaved phase sets, "
-        "near-identical and identical phasings) and one TLC-enumerated group element (a haplotype permutation per file and phase "
+        "near-identical and identical phasings; and seeded noisy tetraploid/triploid single blocks of 5-7 variants with identical genotypes and 10-40 % switches/flips) and one TLC-enumerated group element (a haplotype permutation per file and phase "
         "set). `run_compare` is executed on the files as generated (PS / HP / implicit-PS encodings) and on the re-listed files; "
         "both runs are judged against the definitions and against each other. Non-trivial = some chromosome has an intersection "
         "block with Hamming distance > 0 and the group element is not the identity on a phase set present in the files")
@@ -188,6 +188,31 @@ def _rand_tuple(rng, p, nf, n, maxblk, kind, na=2):
     return F, g
 
 
+def _noisy_block(rng, p, n):
+    """One phase set in both files, identical genotypes at every site: B is A with 10-40 % of the
+    positions hit by a switch (haplotypes re-paired from that position on) or a genotype-preserving
+    flip (the alleles of one site re-distributed over the haplotypes).  These are the blocks on which
+    the implementation's column pruning matters (many near-optimal correspondence sequences)."""
+    het = [[(m >> k) & 1 for k in range(p)] for m in range(1, 2 ** p - 1)]
+    A = [{"b": 1, "a": list(rng.choice(het))} for _ in range(n)]
+    B = [{"b": 1, "a": list(s["a"])} for s in A]
+    rate = rng.uniform(0.1, 0.4)
+    for t in range(n):
+        if rng.random() < rate:
+            pi = _rand_perm(rng, p)
+            if rng.random() < 0.5:
+                for s in range(t, n):
+                    B[s]["a"] = [B[s]["a"][pi[k] - 1] for k in range(p)]
+            else:
+                B[t]["a"] = [B[t]["a"][pi[k] - 1] for k in range(p)]
+    if rng.random() < 0.3:      # fully random second phasing with the same genotypes
+        for t in range(n):
+            pi = _rand_perm(rng, p)
+            B[t]["a"] = [A[t]["a"][pi[k] - 1] for k in range(p)]
+    g = [[_rand_perm(rng, p)], [_rand_perm(rng, p)]]
+    return [A, B], g
+
+
 def scenarios(ctx):
     q = ctx.quick
     rng = ctx.rng
@@ -228,6 +253,13 @@ def scenarios(ctx):
             kind = rng.choice(["random", "near", "near", "same"])
             items.append(_rand_tuple(rng, p, nf, n, rng.randint(1, 4), kind))
         _batch(scs, p, nf, items, rng, "random")
+    # noisy polyploid single blocks of 5-7 variants (tetraploid mostly): 8 blocks per world
+    nn = 120 if q else 1200
+    for i in range(nn):
+        p = 4 if i % 4 else 3
+        items = [_noisy_block(rng, p, rng.randint(5, 7)) for _ in range(8)]
+        _batch(scs, p, 2, items, rng, "noisy_polyploid")
+    ctx.notes["noisy_polyploid_blocks"] = {"worlds": nn, "blocks": 8 * nn, "ploidy4": 8 * sum(1 for i in range(nn) if i % 4)}
     nm = 10 if q else 100
     for i in range(nm):
         items = [_rand_tuple(rng, 2, 2, rng.randint(2, 6), rng.randint(1, 2), rng.choice(["random", "near", "same"]), na=3)
